@@ -747,7 +747,8 @@ next:
 		print_args(&args, &len, ")");
 	}
 	else {
-		if (needs_semi_colon)
+		/* a full buffer (len == 1) has room for the NUL only */
+		if (needs_semi_colon && len > 1)
 			args[n++] = ';';
 		args[n] = '\0';
 	}
